@@ -55,8 +55,52 @@ EVENT_CLASSES = [SimEvent, SubEvent, SubEvent2]
 TARGET = _Target()
 
 
+def run_giant(case):
+    """Tens of thousands of pending events (beyond any plausible size threshold):
+    adds, a few hundred interior removals, then a complete drain.  Judged without a
+    reference list: the drain must be sorted by (time, priority, creation) and be
+    exactly the events that were not removed."""
+    import random as _random
+    rng = _random.Random(case["seed"])
+    SimEvent._SimEvent__event_counter = 0
+    el = EventListHeap()
+    tgt = _Target()
+    evs = []
+    for _ in range(case["n"]):
+        t = rng.randrange(0, case["n"] // 4) / 2.0 if case["ttype"] == "float" \
+            else rng.randrange(0, case["n"] // 4)
+        ev = SimEvent(t, tgt, "m", rng.choice(PRIOS))
+        el.add(ev)
+        evs.append(ev)
+    removed = set()
+    for k in range(case["removes"]):
+        ev = evs[rng.randrange(len(evs))]
+        if id(ev) in removed:
+            continue
+        if not el.remove(ev):
+            return ("remove", "giant list: remove() of a pending event returned False"), {}
+        removed.add(id(ev))
+        if k % 7 == 0:
+            ev2 = SimEvent(rng.randrange(0, case["n"] // 4) / 2.0, tgt, "m", rng.choice(PRIOS))
+            el.add(ev2)
+            evs.append(ev2)
+    expected = sorted((e for e in evs if id(e) not in removed), key=key_of)
+    if el.size() != len(expected):
+        return ("size", "giant list: size() == %d, expected %d" % (el.size(), len(expected))), {}
+    for j, exp in enumerate(expected):
+        got = el.pop_first()
+        if got is not exp:
+            return ("drain-order", "a list of %d events after %d interior removals: pop #%d "
+                    "returned %s while %s was still pending"
+                    % (len(evs), len(removed), j, _desc(got), _desc(exp))), {}
+    return None, {}
+
+
 def generate(seed, tier, idx=0):
     rng = common.rng_for(seed, "case")
+    if rng.random() < (1e-4 if tier == "quick" else 1e-3):
+        return {"kind": "giant", "n": rng.choice([40000, 70000]), "removes": 400,
+                "ttype": rng.choice(["float", "int"]), "seed": rng.getrandbits(32), "ops": []}
     ttype = rng.choice(["int", "float", "mixed", "duration", "float"])
     # int times far beyond 2**53 are exact ints but not representable as floats
     big = rng.choice([0, 0, 0, 2 ** 53, 10 ** 18 + 7]) if ttype == "int" else 0
@@ -336,9 +380,14 @@ def _desc(e):
 
 
 def execute(case):
-    finding, info = run_history(case)
+    if case.get("kind") == "giant":
+        finding, _ = run_giant(case)
+        info = {"ops": case["n"] + case["removes"], "interior_removed": True, "pop_after": True}
+    else:
+        finding, info = run_history(case)
     res = {"clean": True, "digest": common.digest([case, finding and finding[0]]),
-           "counters": {"ttype:" + case["ttype"]: 1, "ops": info["ops"]},
+           "counters": {"ttype:" + case["ttype"]: 1, "ops": info["ops"],
+                        "giant_lists": 1 if case.get("kind") == "giant" else 0},
            "nontrivial": info["interior_removed"] and info["pop_after"],
            "case_digest": common.digest8(case)}
     if finding:
